@@ -393,17 +393,22 @@ def hasTwice (w₁ w₂ : Wrap) : Bool :=
        | _ => false)
     | [] => false
 
+/-- some struct type of the graph reaches itself or an earlier type through a map value (`map[string]R`, `map[string]*R`) -/
+def hasMapBackEdge (env : Env) : Bool :=
+  (List.range env.length).any fun t => (decl env t).edges.any fun e => e.wrap.isMap && decide (e.target ≤ t)
+
 /-- a root whose type graph has a cycle, that builds, and that has probes -/
 def isRecursiveRow (r : GRow) : Bool := !rankedB r.env && r.built && r.probes.length ≥ 4
 
 /-- **Coverage of the table**: every ordered pair of wraps (except two embeddings of one type, which Go
     rejects) occurs as two sibling fields of one tagged struct type; there are roots with three
     occurrences, diamond-shaped graphs (a type of index ≥ 2 with two incoming edges from different types),
-    recursive roots, and roots whose construction does not return. -/
+    recursive roots, and roots that are recursive through a map value (whose construction did not return before
+    the map walk shared the visited set). -/
 theorem c06_graph_table_covers :
     (allWraps.all fun w₁ => allWraps.all fun w₂ => (w₁ == .emb && w₂ == .emb) || hasTwice w₁ w₂) = true ∧
     (graphTable.filter isRecursiveRow).length ≥ 8 ∧
-    (graphTable.filter fun r => !r.built).length ≥ 3 ∧
+    (graphTable.filter fun r => hasMapBackEdge r.env).length ≥ 3 ∧
     (graphTable.filter fun r => rankedB r.env && decide (r.env.length ≥ 3)).length ≥ 6 := by
   decide +kernel
 
